@@ -30,7 +30,7 @@ prop(
 
 prop(
     "C02",
-    [state.rule_shared_cursor, fmtdec.rule_literal_verbatim, tables.rule_fmt_trait_tables, fmtdec.rule_tpl_verb, fmtdec.rule_binder_align, fmtdec.rule_pointer_deref, fmtdec.rule_rename_all, state.rule_iteration_state, optrules.rule_option_flow, rawid.rule_raw_id, fmtparse.rule_peg_tables, fmtparse.rule_peg_equiv, fmtdec.rule_attr_separator],
+    [fmtparse.rule_single_placeholder, state.rule_shared_cursor, fmtdec.rule_literal_verbatim, tables.rule_fmt_trait_tables, fmtdec.rule_tpl_verb, fmtdec.rule_binder_align, fmtdec.rule_pointer_deref, fmtdec.rule_rename_all, state.rule_iteration_state, optrules.rule_option_flow, rawid.rule_raw_id, fmtparse.rule_peg_tables, fmtparse.rule_peg_equiv, fmtdec.rule_attr_separator],
     explanation="With an attribute the expansion *is* a write!/format_args! call, so 'prints what format! prints' reduces to: the attribute's tokens reach the macro verbatim and in order, fields are bound under "
     "the names the literal may use (`ident` / `_i`, same field), Pointer placeholders get the field itself, and the implicit body (unit name with rename_all, single-field delegation) is built as documented.",
     assumptions=["Rust's own semantics of format_args! (trusted)", NOT_DECIDED_VALUES],
@@ -38,7 +38,7 @@ prop(
 
 prop(
     "C03",
-    [fmtparse.rule_peg_combinators, fmtparse.rule_peg_tables, fmtparse.rule_fmt_counter, fmtparse.rule_peg_equiv, fmtdec.rule_transparent_call, fmtdec.rule_dec_cover],
+    [fmtparse.rule_numeric_leaf, fmtparse.rule_peg_combinators, fmtparse.rule_peg_tables, fmtparse.rule_fmt_counter, fmtparse.rule_peg_equiv, fmtdec.rule_transparent_call, fmtdec.rule_dec_cover],
     thorough=[fmtoracle.rule_reference_oracle],
     level="model_checking",
     explanation="A PEG is extracted from the combinator source of impl/src/fmt/parsing.rs on every run (fail-closed on any construct it does not understand) and compared, by table rules and by bounded "
@@ -53,7 +53,7 @@ prop(
 
 prop(
     "C04",
-    [hdr.rule_user_bounds_flow, split.rule_alias_test, split.rule_ident_argument, hdr.rule_bounds_appended, attrs.rule_typed_attrs, tables.rule_fmt_trait_tables, fmtdec.rule_guard_use, fmtdec.rule_traversal, fmtdec.rule_lookup_agreement, fmtdec.rule_shared_decision, fmtparse.rule_fmt_counter, fmtparse.rule_peg_tables, fmtdec.rule_expansion_pair],
+    [conv.rule_merge_symmetry, conv.rule_merge_no_shortcut, hdr.rule_user_bounds_flow, split.rule_alias_test, split.rule_ident_argument, hdr.rule_bounds_appended, attrs.rule_typed_attrs, tables.rule_fmt_trait_tables, fmtdec.rule_guard_use, fmtdec.rule_traversal, fmtdec.rule_lookup_agreement, fmtdec.rule_shared_decision, fmtparse.rule_fmt_counter, fmtparse.rule_peg_tables, fmtdec.rule_expansion_pair],
     explanation="Bounds are emitted by six templates `#ty: core::fmt::#Trait`; each must be guarded by contains_generics on the same binding; contains_generics must traverse every variant / type-bearing field of "
     "syn::Type, PathArguments and GenericArgument (read from the syn sources the crate builds against); the placeholder->field lookup agrees with its sibling and with the binder names; body and bounds take the same decisions.",
     assumptions=["NOT decided: that bounded_types is a complete algorithm for arbitrary literals beyond these necessary conditions", NOT_DECIDED_VALUES],
@@ -61,7 +61,7 @@ prop(
 
 prop(
     "C05",
-    [fmtdec.rule_shared_decision, fmtdec.rule_shared_attr_unfiltered, fmtdec.rule_dec_cover, fmtdec.rule_transparent_call, fmtdec.rule_transparent_siblings, split.rule_split_table, fmtparse.rule_peg_combinators, fmtparse.rule_single_placeholder, split.rule_alias_test],
+    [fmtdec.rule_literal_parsed, fmtdec.rule_shared_decision, fmtdec.rule_shared_attr_unfiltered, fmtdec.rule_dec_cover, fmtdec.rule_transparent_call, fmtdec.rule_transparent_siblings, split.rule_split_table, fmtparse.rule_peg_combinators, fmtparse.rule_single_placeholder, split.rule_alias_test],
     explanation="FmtAttribute::transparent_call is the decision function for flag pass-through: every FormatSpec field must veto transparency, exactly one placeholder, the positional index must denote the single argument, "
     "and each site emitting an attribute body must ask it first and fall back to write! unconditionally. Argument counting depends on the argument scanner (C16 findings are repeated here).",
     assumptions=["format_args!/write! ignore the outer formatter's flags (Rust semantics)", NOT_DECIDED_VALUES],
@@ -77,7 +77,7 @@ prop(
 
 prop(
     "C07",
-    [fmtdec.rule_shared_attr_unfiltered, reject.rule_reject_ledger, fmtparse.rule_peg_tables, fmtparse.rule_single_placeholder, tables.rule_fmt_trait_tables, fmtdec.rule_shared_reject, fmtdec.rule_shared_decision, fmtdec.rule_lookup_agreement, state.rule_iteration_state, optrules.rule_option_flow, fmtparse.rule_fmt_counter, fmtdec.rule_expansion_pair],
+    [fmtdec.rule_literal_parsed, fmtdec.rule_shared_attr_unfiltered, reject.rule_reject_ledger, fmtparse.rule_peg_tables, fmtparse.rule_single_placeholder, tables.rule_fmt_trait_tables, fmtdec.rule_shared_reject, fmtdec.rule_shared_decision, fmtdec.rule_lookup_agreement, state.rule_iteration_state, optrules.rule_option_flow, fmtparse.rule_fmt_counter, fmtdec.rule_expansion_pair],
     explanation="Compile-time clauses: the `_variant` rejection precedes arm generation and tests modifiers OR non-Display; Debug rejects an enum-level format; `_variant` detection resolves names like bounded_types does; "
     "body and bounds share the wrap/default decision of shared_attr_info; the wrapping template binds `_variant` with the fields in scope; rename_all applies before the wrap split.",
     assumptions=["NOT decided: the full three-way decision (shared attribute x own attribute x field count) as a truth table, and every printed text", NOT_DECIDED_VALUES],
@@ -132,7 +132,7 @@ prop(
 
 prop(
     "C14",
-    [optrules.rule_enabled_default, shape.rule_ref_types, hdr.rule_generics_preserve, hyg.rule_tpl_ufcs, shape.rule_delegation, errsel.rule_view_defs, idx.rule_idx_space, idx.rule_enumerate_positions, gendet.rule_generics_search, generic.rule_arg_order, generic.rule_field_correspondence, optrules.rule_meta_defaults, state.rule_raw_flags, reject.rule_reject_ledger],
+    [attrs.rule_legacy_attr_parser, optrules.rule_enabled_default, shape.rule_ref_types, hdr.rule_generics_preserve, hyg.rule_tpl_ufcs, shape.rule_delegation, errsel.rule_view_defs, idx.rule_idx_space, idx.rule_enumerate_positions, gendet.rule_generics_search, generic.rule_arg_order, generic.rule_field_correspondence, optrules.rule_meta_defaults, state.rule_raw_flags, reject.rule_reject_ledger],
     explanation="Delegating derives use element 0 of the enabled views (VIEW-DEF keeps positional names original), direct forms `&[mut] self.member`, forwarded forms through one cast with projected associated types, "
     "RefType tables pairwise consistent, AsRef kind decision and the autoref-specialisation levels of src/as.rs vs. the call site.",
     assumptions=["autoref-based specialisation: method probing prefers the receiver with fewer auto-refs (language semantics)", NOT_DECIDED_VALUES],
@@ -140,7 +140,7 @@ prop(
 
 prop(
     "C15",
-    [hyg.rule_generic_capture, hyg.rule_tpl_ufcs, hyg.rule_tpl_hyg, hyg.rule_tpl_meth, hyg.rule_tpl_assoc, hyg.rule_tpl_export, cfg.rule_cfg_export],
+    [hdr.rule_tpl_selfassoc, hyg.rule_generic_capture, hyg.rule_tpl_ufcs, hyg.rule_tpl_hyg, hyg.rule_tpl_meth, hyg.rule_tpl_assoc, hyg.rule_tpl_export, cfg.rule_cfg_export],
     explanation="Name resolution of a template token depends only on the token sequence: every path root / macro name / trait-method call of the 247 templates is classified; every derive_more:: path has a backing export "
     "under the features that compile the emitting code.",
     assumptions=[
@@ -151,7 +151,7 @@ prop(
 
 prop(
     "C16",
-    [split.rule_split_table, split.rule_alias_test, fmtdec.rule_tpl_verb, fmtdec.rule_lookup_agreement, fmtparse.rule_fmt_counter, fmtdec.rule_attr_separator],
+    [split.rule_stateless_combinators, split.rule_split_table, split.rule_alias_test, fmtdec.rule_tpl_verb, fmtdec.rule_lookup_agreement, fmtparse.rule_fmt_counter, fmtdec.rule_attr_separator],
     explanation="The argument scanner is a four-alternative token matcher; its alternatives are compared with the places where Rust's expression grammar keeps a comma inside an expression (table compiled from syn), "
     "the alias test is checked against `==` and spacing, termination/failure of the helper loops, verbatim re-emission (TPL-VERB).",
     assumptions=["agreement on *all* expressions is undecidable for a hand scanner; the table is the claim", "`->` inside `::<..>` and `|=` are residual exotic hazards listed in DESIGN.md, not decided"],
@@ -159,7 +159,7 @@ prop(
 
 prop(
     "C17",
-    [attrs.rule_level_flags, hdr.rule_user_bounds_flow, shape.rule_discriminants, attrs.rule_legacy_attr_parser, attrs.rule_typed_attrs, attrs.rule_attr_positions, conv.rule_merge_symmetry, optrules.rule_option_flow, reject.rule_reject_ledger, fmtdec.rule_attr_separator, optrules.rule_meta_defaults, state.rule_accumulators, state.rule_loop_exit],
+    [conv.rule_merge_no_shortcut, attrs.rule_level_flags, hdr.rule_user_bounds_flow, shape.rule_discriminants, attrs.rule_legacy_attr_parser, attrs.rule_typed_attrs, attrs.rule_attr_positions, conv.rule_merge_symmetry, optrules.rule_option_flow, reject.rule_reject_ledger, fmtdec.rule_attr_separator, optrules.rule_meta_defaults, state.rule_accumulators, state.rule_loop_exit],
     explanation="Attribute totality: the untyped parser's checks dominate every successful return, its name matches end in rejecting arms, slots are written once; typed attributes reject repetition unless merging is documented "
     "(merge overrides enumerated, symmetric), synonyms are accepted alike and not branched on, legacy syntax is detected on every path, positional conflicts raise their diagnostics.",
     assumptions=["NOT decided: token-equality of expansions for synonymous inputs (follows from the parsers producing the same value; not proved), diagnostics' wording"],
@@ -167,7 +167,7 @@ prop(
 
 prop(
     "C18",
-    [state.rule_shared_cursor, panics.rule_panic_ledger, panics.rule_extern_preconditions, panics.rule_closed_sets, panics.rule_termination, fmtparse.rule_peg_combinators, fmtparse.rule_peg_tables, fmtdec.rule_traversal, split.rule_scanner_progress, idx.rule_idx_space, rawid.rule_raw_id],
+    [panics.rule_parse_quote_shape, state.rule_shared_cursor, panics.rule_panic_ledger, panics.rule_extern_preconditions, panics.rule_closed_sets, panics.rule_termination, fmtparse.rule_peg_combinators, fmtparse.rule_peg_tables, fmtdec.rule_traversal, split.rule_scanner_progress, idx.rule_idx_space, rawid.rule_raw_id],
     explanation="Every panic-capable site rustc sees in the crate (all features) is matched against a ledger: diagnostic, input-guaranteed, guarded (the guard is re-recognised from the conditions holding at the site on this run) or audited with a reason; "
     "closed sets behind unimplemented!/unreachable! are re-derived from the create_derive! table and the syn sources; recursive SCCs of the resolved call graph need a termination argument; parser loops progress.",
     assumptions=["panics inside syn / quote / proc-macro2 for token streams the compiler never produces are out of scope", "stack depth as a number is not bounded, only recursion on strict sub-terms"],
@@ -175,7 +175,7 @@ prop(
 
 prop(
     "C19",
-    [det.rule_det_hasher, det.rule_det_ambient, det.rule_det_state, generic.rule_order_adaptors],
+    [det.rule_det_address, det.rule_det_hasher, det.rule_det_ambient, det.rule_det_state, generic.rule_order_adaptors],
     explanation="Determinism decided on the type-checked program: rustc's own MIR of derive_more-impl (all features) is searched for every hashed-collection instantiation, every resolved call and every static; nothing is executed.",
     assumptions=[
         "syn, quote, proc-macro2, convert_case, unicode-xid are pure (their MIR is not analysed)",
